@@ -303,6 +303,29 @@ def rule_layout_transparent(ctx, rep: Report, rid="L2"):
                 why = ("the terminal glues identifier characters and punctuation into one token; "
                        "elsewhere the same tokens may be separated by layout, so layout changes the parse")
             rep.add(rid, f"terminal:{n.kind}({txt!r})", not bad, why, gloc(n), nontrivial=bad)
+        if n.kind in ("Word", "CharsNotIn"):
+            # a run of characters that can contain a comment opener swallows it: `operator<< /* c */ (...)` is then read as the
+            # token `<<` followed by `/*`, not as `<<` followed by a comment that is skipped
+            a = n.attrs.get("args", [])
+            strs = [x for x in a[:2] if isinstance(x, str) and x != "<expr>"]
+            if n.kind == "Word" and strs:
+                init = set(strs[0])
+                body = set(strs[1]) if len(strs) > 1 else init
+                excl = n.attrs.get("excludeChars")
+                if isinstance(excl, str):
+                    init -= set(excl)
+                    body -= set(excl)
+                opener = ("/" in init or "/" in body) and ("*" in body or "/" in body)
+                nlit += 1
+                rep.add(rid, f"terminal:Word({''.join(sorted(init))[:24]!r})@{ctx_label(g, n)}", not opener,
+                        "the character run can contain `/*` or `//`: a comment written directly after (or inside) the token is consumed as part of it "
+                        "instead of being skipped, so adding a comment changes the parse", gloc(n), nontrivial=opener)
+            elif n.kind == "CharsNotIn" and strs:
+                opener = "/" not in strs[0]
+                nlit += 1
+                rep.add(rid, f"terminal:CharsNotIn({strs[0][:24]!r})@{ctx_label(g, n)}", not opener,
+                        "everything up to one of these characters is one token, a comment included: layout inside it becomes part of the result",
+                        gloc(n), nontrivial=opener)
         if n.kind == "LayoutSensitive":
             rep.add(rid, f"combinator:{n.attrs.get('what')}@{ctx_label(g, n)}", False,
                     "layout-sensitive pyparsing construct in the grammar", gloc(n))
@@ -314,8 +337,8 @@ def rule_layout_transparent(ctx, rep: Report, rid="L2"):
             rep.add(rid, f"global:{e.what}", False, "default white-space characters changed globally",
                     f"{e.mi.rel}:{e.at.lineno}")
     rep.units["distinct_terminals_outside_verbatim_zones"] = nlit
-    if nlit < 40:
-        raise AnalysisError(f"{rep.prop}/{rid}: only {nlit} terminals found (>=40 expected)")
+    if nlit < 30:
+        raise AnalysisError(f"{rep.prop}/{rid}: only {nlit} terminals found (>=30 expected)")
 
 
 def rule_verbatim_zones(ctx, rep: Report, rid="L4"):
